@@ -119,7 +119,7 @@ static const char *post_clauses(const uscxml_ctx *pre, const uscxml_ctx *c, int 
       }
       if (!(same || (sp_bit(pre->config, p) && recorded))) return "the record of a history changed although its parent was not active, or to something else than what was active below the parent";
     }
-  if (!skiphist && r == USCXML_ERR_OK && !(pre->flags & (USCXML_CTX_FINISHED | USCXML_CTX_TOP_LEVEL_FINAL))) {
+  if (r == USCXML_ERR_OK && !(pre->flags & (USCXML_CTX_FINISHED | USCXML_CTX_TOP_LEVEL_FINAL))) {
     /* the step function against the spec function of one microstep (spec_step.h) */
     int sel[D_T + 1]; unsigned char exp[USCXML_MAX_NR_STATES_BYTES + 8], xs[USCXML_MAX_NR_STATES_BYTES + 8], es[USCXML_MAX_NR_STATES_BYTES + 8];
     int pristine = pre->flags == USCXML_CTX_PRISTINE, any = pristine;
@@ -130,6 +130,7 @@ static const char *post_clauses(const uscxml_ctx *pre, const uscxml_ctx *c, int 
     }
     if (!any) return "the step returned OK although the optimal enabled transition set is empty";
     sps_config(pre->config, pre->history, sel, pristine, exp, xs, es);
+    if (skiphist && sps_hist_used) goto after_spec; /* nested histories: steps that restore a history are left out */
     for (int k = 0; k < USCXML_MAX_NR_STATES_BYTES; k++)
       if (exp[k] != c->config[k]) {
         static char msg[600]; int n = snprintf(msg, sizeof msg, "configuration differs from the microstep algorithm of the Recommendation, which yields {");
@@ -146,6 +147,7 @@ static const char *post_clauses(const uscxml_ctx *pre, const uscxml_ctx *c, int 
     }
     for (int t = 0; t < D_T; t++) if (d_tlognum[t] >= 0 && sp_bit(tl, t) != sel[t]) return "transition content did not run exactly for the selected transitions";
 #endif
+  after_spec:;
   }
   if (r == USCXML_ERR_OK && legal_config(c->config))
     for (int f = 1; f < D_N; f++) {
